@@ -26,12 +26,22 @@ Definition schema_ext_ops (ds : list definition) : list (N * name) :=
 Definition is_executable (d : definition) : bool :=
   match d with DExecutable => true | _ => false end.
 
-(* one extension applied to a type of the same kind and name: members are appended *)
+(* `get_specified_by_url(extension) or specified_by_url`: a non-empty URL of the extension wins *)
+Definition ext_url (cur ext : otext) : otext :=
+  match ext with
+  | Some (c :: u) => Some (c :: u)
+  | _ => cur
+  end.
+
+(* one extension applied to a type of the same kind and name: members are appended, a scalar
+   extension may bring a @specifiedBy URL; @oneOf on an extension has no effect (only the
+   definition node is consulted), other applied directives are not part of the schema *)
 Definition apply_ext (t e : typedef) : typedef :=
   if (t_kind e =? t_kind t) && text_eqb (t_name e) (t_name t) then
     mkType (t_kind t) (t_name t) (t_desc t)
       (t_fields t ++ t_fields e) (t_ifaces t ++ t_ifaces e) (t_members t ++ t_members e)
-      (t_values t ++ t_values e) (t_inputs t ++ t_inputs e) (t_specified_by t) (t_oneof t)
+      (t_values t ++ t_values e) (t_inputs t ++ t_inputs e)
+      (ext_url (t_specified_by t) (t_specified_by e)) (t_oneof t)
   else t.
 
 Definition apply_exts (exts : list typedef) (t : typedef) : typedef := fold_left apply_ext exts t.
